@@ -61,8 +61,9 @@ inductive Call
   | write (b : Bytes) (ks : List KAns)
   | writev (bs : List Bytes) (ks : List KAns)
   | sendfile (off len : Nat) (ks : List KAns)
+  | sendfileNoDup (off len : Nat) (ks : List KAns)
 
-/-- "write <payload> K=<k>" | "writev <m> <payload>… K=<k>" | "sendfile <off> <len> K=<ks>" -/
+/-- "write <payload> K=<k>" | "writev <m> <payload>… K=<k>" | "sendfile <off> <len> K=<ks> [dup=0]" -/
 def parseCall (g : Cfg) (ws : List String) : Option Call := do
   let ks ← parseKs ((Drv.field ws "K").getD "-")
   match ws with
@@ -74,6 +75,10 @@ def parseCall (g : Cfg) (ws : List String) : Option Call := do
     let off ← off.toNat?
     let len ← len.toNat?
     if off > g.fsize then none else some (.sendfile off len ks)
+  | ["sendfile", off, len, _, "dup=0"] =>                   -- dup(2) of the file descriptor fails
+    let off ← off.toNat?
+    let len ← len.toNat?
+    if off > g.fsize then none else some (.sendfileNoDup off len ks)
   | _ => none
 
 /-- the model's step functions for the three calls (`ConnFull.step` is defined through the same) -/
@@ -81,6 +86,7 @@ def rawCall (g : Cfg) (s : S) : Call → S × Ret
   | .write b ks => writeOp g s b ks
   | .writev bs ks => writevOp g s bs ks
   | .sendfile off len ks => sendfileOp g s off len ks
+  | .sendfileNoDup off len ks => sendfileNoDupOp g s off len ks
 
 /-- a call of the sequential harness: if it flipped the flag (fatal error) its own goroutine runs the
     teardown right after the unlock -/
